@@ -15,7 +15,7 @@ package jrpc2
 //@   loop#0 invariant forall k int :: 0 <= k && k < i ==> uint64(blocks[k].Header.Number) == start + uint64(k)
 //@   loop#0 invariant forall k int :: 1 <= k && k < i ==> linked(blocks, k)
 
-//@ func (Error).Exists props=C07
+//@ func (Error).Exists props=C07,C01,C02
 //@   ensures result == (e.Code != 0)
 
 // C08: the cached head. Announced(n, h): ghost set of (number, hash) pairs the
